@@ -272,6 +272,36 @@ def delete_programs(p, impl):
     return n, bad
 
 
+def durable_programs(p, impl):
+    """-> (number compared, mismatch texts): the create / write / fsync steps of every Publish, Sync and Close seen by the
+    FS tap vs the steps Durable.v (publish_kinds / sync_kinds) computes for the call"""
+    model, case = {}, None
+    for line in open(p + '.delprog'):
+        line = line.rstrip('\n')
+        if line.startswith('case '):
+            case = line[5:]
+        elif line.startswith('dprog '):
+            f = line.split(' ', 2)
+            model[(case, int(f[1]))] = [x.strip() for x in (f[2] if len(f) > 2 else '').split(';') if x.strip()]
+    seen = {}
+    for name, img in impl.items():
+        if name.endswith('@run') or 'powerloss=' in img['header'] or 'torn' in img['header']:
+            continue
+        hdr = dict(kv_.split('=', 1) for kv_ in img['header'].split()[1:] if '=' in kv_)
+        kind, path = hdr.get('kind'), hdr.get('path', '')
+        if hdr.get('tmp') == '1' or '.rewrite.' in path or kind not in ('create', 'write', 'fsync'):
+            continue
+        ev = '%s %s' % (kind, path) if kind == 'fsync' else '%s %s %s' % (kind, path, hdr.get('n'))
+        seen.setdefault((name.split('@')[0], int(hdr['inflight'])), []).append((int(hdr['k']), ev))
+    n, bad = 0, []
+    for key, prog in model.items():
+        obs = [e for _, e in sorted(seen.get(key, []))]
+        n += 1
+        if obs != prog:
+            bad.append('workload %s, op %d: implementation performs %s; Durable.v says %s' % (key[0], key[1], obs, prog))
+    return n, bad
+
+
 def durable_acks(run_ops):
     """w after each op: the largest offset bound acknowledged as durable (Sync, AutoSync publish, Close)"""
     ws, w, nxt, autosync = [], 0, 0, False
@@ -340,6 +370,7 @@ def crash_extra(pid, tier, seed, powerloss):
     try:
         viol, nimg, ntorn, mism, nview = [], 0, 0, [], 0
         nprog, progbad = 0, []
+        ndur, durbad = 0, []
         known_hits = {}
         dist = {}
         for p in paths:
@@ -349,6 +380,10 @@ def crash_extra(pid, tier, seed, powerloss):
                 a, b = delete_programs(p, impl)
                 nprog += a
                 progbad += b
+            else:
+                a, b = durable_programs(p, impl)
+                ndur += a
+                durbad += b
             pchk = [l for l in open(p + '.pcheck') if l.startswith('PFAIL')]
             viewfails = {}
             for l in pchk:
@@ -402,7 +437,13 @@ def crash_extra(pid, tier, seed, powerloss):
                                  'program of coq/CrashDir.v (delete_prog / publish_prog; theorems C05_override_crash_safe / C05_drop_crash_safe / '
                                  'C05_rebase_overlap / C05_create_head_crash_safe / C05_head_all_crash_safe / C05_head_tail_override_crash_safe)\n# %s\n'
                                  % (pid, '\n# '.join(progbad[:5]))))
+        if not viol and durbad:
+            viol.append(('corr', '# correspondence corr:%s/durable-programs no longer checks: the write / fsync / create steps of a Publish, '
+                                 'Sync or Close differ from the steps of coq/Durable.v (publish_kinds / sync_kinds; theorems '
+                                 'C06_sealed_segments_stay_durable / C06_sync_makes_everything_durable / C06_acked_lengths_survive)\n# %s\n'
+                                 % (pid, '\n# '.join(durbad[:5]))))
         cov = dict(crash=dict(workloads=len(wl), images=nimg, torn_images=ntorn, recoveries_compared_with_model=nimg - len(viol),
+                              durable_programs_compared_with_Durable=ndur, durable_program_mismatches=len(durbad),
                               delete_programs_compared_with_CrashDir=nprog, delete_program_mismatches=len(progbad),
                               correspondence_mismatches=len(mism), property_failures=len(viol),
                               known_finding_hits=sorted(known_hits), image_distribution=dist,
